@@ -25,11 +25,17 @@
  *
  * Line protocol (one answer line per op line; bytes in hex, "-" = empty):
  *   begin L K N name_0 .. name_{N-1}   labels 0|1, -K 0|1, N targets        -> ok <keep_domain> <meta>
- *   feed  i s HEX     write HEX into host i's pipe s (o|e), call the handler once
- *   eof   i s         close the write end, call the handler once
- *   drain i s         call the handler until it returns <= 0 (as _rsh_thread's loop does)
+ *   feed  i s HEX [CAP [NEINTR]]   write HEX into host i's pipe s (o|e), call the handler once
+ *   eof   i s [CAP [NEINTR]]       close the write end, call the handler once
+ *   drain i s [CAP [NEINTR]]       call the handler until it returns <= 0 (as _rsh_thread's loop does)
+ *                     CAP (a number; `-` = none): the descriptor delivers at most CAP bytes during each of these
+ *                     handler calls (short read; 0 = EAGAIN although data is there); NEINTR: the first NEINTR
+ *                     read(2) calls of each handler call fail with EINTR; CAP = `E`: the read fails with EIO
+ *                     (the handler prints its diagnostic through err() and closes the descriptor)
  *   run   i s HEX..   a whole stream at once (the model's runStream): one handler call after each
  *                     chunk, close, drain, this stream's _flush_output     -> run <th->rc|-> | S:HEX ...
+ *   rcperr i e POPT RV HEX..  pdcp/rpdcp: the real _parallel_copy() of target i (pcp_Popt = POPT, the copy
+ *                     protocol stubbed to return RV) with HEX.. as the remote stderr   -> rcp <RV> | S:HEX ...
  *   flush i           _flush_output(outbuf, out, th); _flush_output(errbuf, err, th)
  *   xrc HEX           _extract_rc on a copy of the string                   -> <ret> <string after>
  * Answers of feed/eof/drain/flush:  <ncalls> <last ret> <th->rc> | S:HEX S:HEX ...   (S = 1 stdout,
@@ -71,6 +77,52 @@ int __wrap_fputs(const char *s, FILE *f)
     if (f == real_stdout_file) { record(1, s, strlen(s)); return 1; }
     if (f == real_stderr_file) { record(2, s, strlen(s)); return 1; }
     return __real_fputs(s, f);
+}
+
+/* ------------------------------------------------------------------ scripted read(2) faults
+ * read(2) is interposed (-Wl,--wrap=read).  For the duration of ONE handler call on descriptor
+ * `fault_fd` the harness can (a) limit the bytes the descriptor delivers to `fault_budget` in total -- a
+ * SHORT read; with nothing left of the budget the read fails with EAGAIN although data may be there (a
+ * spurious wake-up); EOF on an empty descriptor still shows -- and (b) let the first `fault_eintr` reads
+ * fail with EINTR (cbuf.c's cbuf_get_fd retries those: the handler must not notice). */
+#include <sys/ioctl.h>
+static int fault_fd = -1;
+static long fault_budget = -1;      /* < 0: no limit */
+static int fault_eintr;
+static int fault_eio;               /* the next read fails with EIO */
+static long fault_reads;            /* read(2) calls seen on fault_fd during the handler call */
+
+ssize_t __real_read(int fd, void *buf, size_t n);
+ssize_t __wrap_read(int fd, void *buf, size_t n)
+{
+    ssize_t r;
+    if (fd != fault_fd || fd < 0)
+        return __real_read(fd, buf, n);
+    fault_reads++;
+    if (fault_eintr > 0) {
+        fault_eintr--;
+        errno = EINTR;
+        return -1;
+    }
+    if (fault_eio) {
+        fault_eio = 0;
+        errno = EIO;
+        return -1;
+    }
+    if (fault_budget < 0)
+        return __real_read(fd, buf, n);
+    if (fault_budget == 0) {
+        int avail = 0;
+        if (ioctl(fd, FIONREAD, &avail) == 0 && avail > 0) {
+            errno = EAGAIN;
+            return -1;
+        }
+        return __real_read(fd, buf, n);         /* nothing there: EAGAIN, or 0 at EOF */
+    }
+    r = __real_read(fd, buf, n < (size_t) fault_budget ? n : (size_t) fault_budget);
+    if (r > 0)
+        fault_budget -= r;
+    return r;
 }
 
 /* ------------------------------------------------------------------ answer channel */
@@ -234,6 +286,22 @@ static int call_handler(thd_t *th, int s)
     return s == 0 ? _handle_rcmd_stdout(th) : _handle_rcmd_stderr(th);
 }
 
+/* one handler call under the read faults given by the op's optional arguments `CAP [NEINTR]` */
+static int call_handler_faulty(thd_t *th, int s, const char *cap, const char *neintr)
+{
+    int rc;
+    fault_fd = (s == 0) ? th->rcmd->fd : th->rcmd->efd;
+    fault_budget = (cap && cap[0] >= '0' && cap[0] <= '9') ? atol(cap) : -1;
+    fault_eio = (cap && cap[0] == 'E');
+    fault_eintr = neintr ? atoi(neintr) : 0;
+    rc = call_handler(th, s);
+    fault_fd = -1;
+    fault_budget = -1;
+    fault_eintr = 0;
+    fault_eio = 0;
+    return rc;
+}
+
 static int stream_fd(thd_t *th, int s) { return s == 0 ? th->rcmd->fd : th->rcmd->efd; }
 
 /* an op that does not come back is an observable too (e.g. a flush loop that never advances) */
@@ -293,6 +361,8 @@ int main(int argc, char **argv)
             opt.labels = atoi(a1) != 0;
             opt.separate_stderr = true;
             nhosts = n;
+            if (atoi(a2) != 0)
+                err_no_strip_domain();        /* opt.c: case 'K' -- option parsing precedes dsh(), hence _thd_init() */
             /* thread array as dsh() builds it: terminated with t[i].host == NULL */
             t = (thd_t *) Malloc(sizeof(thd_t) * (n + 1));
             wfd[0] = malloc(n * sizeof(int));
@@ -312,8 +382,6 @@ int main(int argc, char **argv)
                 fd_set_nonblocking(t[i].rcmd->fd);
                 fd_set_nonblocking(t[i].rcmd->efd);
             }
-            if (atoi(a2) != 0)
-                err_no_strip_domain();        /* opt.c: case 'K' */
             compute_domain_flag();
             ans_str("ok ");
             ans_int(keep_host_domain ? 1 : 0);
@@ -376,7 +444,11 @@ int main(int argc, char **argv)
                     free(b); ans_str("bad-op pipe"); ans_flush(); continue;
                 }
                 free(b);
-                rc = call_handler(th, s);
+                {
+                    char *cap = strtok_r(NULL, " \t\r\n", &save);
+                    char *ne = cap ? strtok_r(NULL, " \t\r\n", &save) : NULL;
+                    rc = call_handler_faulty(th, s, cap, ne);
+                }
                 ans_str("1 ");
                 ans_int(rc);
                 ans_str(" ");
@@ -388,11 +460,47 @@ int main(int argc, char **argv)
             if (!strcmp(op, "eof")) {
                 int rc;
                 if (wfd[s][i] >= 0) { close(wfd[s][i]); wfd[s][i] = -1; }
-                rc = call_handler(th, s);
+                {
+                    char *cap = strtok_r(NULL, " \t\r\n", &save);
+                    char *ne = cap ? strtok_r(NULL, " \t\r\n", &save) : NULL;
+                    rc = call_handler_faulty(th, s, cap, ne);
+                }
                 ans_str("1 ");
                 ans_int(rc);
                 ans_str(" ");
                 ans_int(th->rc);
+                ans_emissions();
+                ans_flush();
+                continue;
+            }
+            if (!strcmp(op, "rcperr")) {
+                /* pdcp/rpdcp: the real _parallel_copy() with the copy protocol stubbed to return RV; the whole
+                 * remote stderr is in the pipe and the remote side has closed (the loop inside does not give
+                 * control back).  _parallel_copy closes both descriptors itself. */
+                char *ap = strtok_r(NULL, " \t\r\n", &save);
+                char *arv = strtok_r(NULL, " \t\r\n", &save);
+                char *hx;
+                int bad = 0;
+                if (!ap || !arv || s != 1 || wfd[1][i] < 0) { ans_str("bad-op"); ans_flush(); continue; }
+                while ((hx = strtok_r(NULL, " \t\r\n", &save))) {
+                    size_t len;
+                    unsigned char *b = unhex(hx, &len);
+                    if (len > 0 && pipe_write_all(wfd[1][i], b, len) < 0) bad = 1;
+                    free(b);
+                }
+                if (bad) { ans_str("bad-op pipe"); ans_flush(); continue; }
+                close(wfd[1][i]);
+                wfd[1][i] = -1;
+                th->pcp_Popt = atoi(ap) != 0;
+                th->dsh_sopt = true;
+                relay_pcp_rv_set = 1;
+                relay_pcp_rv = atoi(arv);
+                _parallel_copy(th);
+                relay_pcp_rv_set = 0;
+                th->rcmd->fd = -1;               /* closed by _parallel_copy */
+                th->rcmd->efd = -1;
+                ans_str("rcp ");
+                ans_int(atoi(arv));
                 ans_emissions();
                 ans_flush();
                 continue;
@@ -431,9 +539,14 @@ int main(int argc, char **argv)
             if (!strcmp(op, "drain")) {
                 int rc = 1, calls = 0;
                 if (wfd[s][i] >= 0) { ans_str("bad-op not-eof"); ans_flush(); continue; }
-                while (rc > 0 && calls < 10000000) {
-                    rc = call_handler(th, s);
-                    calls++;
+                {
+                    char *cap = strtok_r(NULL, " \t\r\n", &save);
+                    char *ne = cap ? strtok_r(NULL, " \t\r\n", &save) : NULL;
+                    if (cap && !strcmp(cap, "0")) { ans_str("bad-op cap"); ans_flush(); continue; }
+                    while (rc > 0 && calls < 10000000) {
+                        rc = call_handler_faulty(th, s, cap, ne);
+                        calls++;
+                    }
                 }
                 ans_int(calls);
                 ans_str(" ");
